@@ -46,6 +46,8 @@ func runC04(p *load.Program, r *oblig.Report) {
 	c04EmptyArray(p, r)
 	c04VersionedRequests(p, r)
 	c04PageAccess(p, r)
+	c04Format0NoTimestamp(p, r, "C04.R17 message format 0 has no timestamp field")
+	c04FlexibleMarker(p, r, "C04.R18 flexible versions are recognised by the tag marker")
 	c04RecordVersionBoundary(p, r, "C04.R16 the record format follows the Produce version")
 	varintAcrossRefills(p, r, "C04.R15 a varint of a response decodes to the value the broker encoded, however the bytes arrive")
 	// the v2 record batch inside a Produce body: header layout and back-patched fields (C05.R1)
